@@ -123,6 +123,41 @@ def run(c: checklib.Check):
             c.machinery_failure(f"vacuity: {cfg} did not violate {inv}")
     c.note("negative configurations (D1, D2, D13 switched back on) violate their invariants as expected")
 
+    # ---- 1b. spec -> code: every walk of a transition cover of the model replayed on the real InotifyBuffer / Inotify
+    import multiprocessing as mp
+    import shutil
+
+    from checks import scen_fd_replay as sfr
+    from harness import tlagraph
+
+    tmp = tlc.scratch_dir()
+    try:
+        dot = os.path.join(tmp, "fd.dot")
+        r2 = tlc.run_tlc("InotifyFd", "InotifyFd_cover.cfg", workers=c.jobs, dump=dot, timeout=900)
+        tlc.require_ok(r2, "cover model")
+        g = tlagraph.load_dot(dot)
+    finally:
+        shutil.rmtree(tmp, ignore_errors=True)
+    walks, nedges = tlagraph.transition_cover(g, max_len=60, skip_labels=("Finished",))
+    jobs = []
+    for _root, walk in walks:
+        acts = [tlagraph.parse_label(lab) for lab, _ in walk]
+        states = [{k: g.state(n)[k] for k in sfr.STATE_KEYS} for _, n in walk]
+        jobs.append((2, ["c1", "c2"], acts, states))
+    with mp.get_context("fork").Pool(c.jobs) as pool:
+        res = pool.starmap(sfr.fd_replay, jobs, chunksize=4)
+    bad = [(j, mm) for j, mm in zip(jobs, res) if mm is not None]
+    for j, mm in bad[:2]:
+        c.note(f"spec->code drift: {str(mm)[:400]} after {[a[0] for a in j[2]][:mm.get('k', 0) + 1][-8:]}")
+    steps = sum(len(j[2]) for j in jobs)
+    c.cov["model_edges"] = nedges
+    c.cov["walks_replayed"] = len(jobs)
+    c.cov["model_edges_replayed"] = steps
+    c.cov["drift_traces"] = c.cov.get("drift_traces", 0) + len(bad)
+    c.cov["evaluations"] += len(jobs)
+    c.note(f"spec->code InotifyFd_cover.cfg: {len(jobs)} walks ({steps} steps) of a transition cover of {nedges} edges replayed on the "
+           f"real InotifyBuffer / Inotify over the real kernel, state compared after every action, {len(bad)} diverged")
+
     # ---- 2. real code under the scheduler
     traces, meta = [], []
     total = 0
